@@ -728,7 +728,7 @@ pub proof fn lemma_goto_core_stable(gr: Gram, its0: Seq<Set<StateItem>>, its1: S
 /// grew, and makes the successor of every (old) item of s on x present in the target.
 pub proof fn lemma_step_inv(gr: Gram, its0: Seq<Set<StateItem>>, tr0: Set<Transition>, its1: Seq<Set<StateItem>>, tr1: Set<Transition>,
                             s: int, x: Symbol, t: Set<StateItem>, r: int)
-    requires inv_core(gr, its0, tr0), step_rel(gr, its0, tr0, its1, tr1, s, x, t, r), its0.len() < usize::MAX,
+    requires inv_core(gr, its0, tr0), step_rel(gr, its0, tr0, its1, tr1, s, x, t, r), its1.len() <= usize::MAX,
     ensures inv_core(gr, its1, tr1),
         its1.len() >= its0.len(), 0 <= r < its1.len(),
         forall|p: int| 0 <= p < its0.len() ==> its0[p].subset_of(#[trigger] its1[p]),
